@@ -133,8 +133,19 @@ func c07Run(b *core.B) {
 							if !mine() {
 								continue
 							}
-							// build the chain
+							// build the chain; in the multi-tag layout a branch block may print
+							// nothing (empty, or only a silent statement): the chain still ends there
 							var sb strings.Builder
+							blockText := make([]string, n)
+							blockOut := make([]string, n)
+							for i := 0; i < n; i++ {
+								blockText[i] = fmt.Sprintf("B%d", i+1)
+								blockOut[i] = blockText[i]
+								if layout == 0 && r.Chance(1, 4) {
+									blockText[i] = pick(r, []string{"", "<% let z9 = 1 %>", "<%# nothing %>"})
+									blockOut[i] = ""
+								}
+							}
 							conds := make([]string, n)
 							recorded := make([]bool, n)
 							first := -1
@@ -164,9 +175,9 @@ func c07Run(b *core.B) {
 								}
 								if layout == 0 {
 									if i == 0 {
-										fmt.Fprintf(&sb, "<%%= if (%s) { %%>B%d", conds[i], i+1)
+										fmt.Fprintf(&sb, "<%%= if (%s) { %%>%s", conds[i], blockText[i])
 									} else {
-										fmt.Fprintf(&sb, "<%% %s (%s) { %%>B%d", kw, conds[i], i+1)
+										fmt.Fprintf(&sb, "<%% %s (%s) { %%>%s", kw, conds[i], blockText[i])
 									}
 								} else {
 									if i == 0 {
@@ -203,6 +214,9 @@ func c07Run(b *core.B) {
 							ntrace := n
 							if first >= 0 {
 								marker = fmt.Sprintf("B%d", first+1)
+								if layout == 0 {
+									marker = blockOut[first]
+								}
 								ntrace = first + 1
 							} else if withElse == 1 {
 								marker = "E"
